@@ -46,7 +46,12 @@ RULE = ('correspondence: (1) fixup_one_index / fixup_slice_indices exhaustively 
         '(also when it is itself a delimited sequence [p, q] / (p, q) / {p, q}) is one element; (P2) every index FORM: int, '
         'negative int, slice, "end", str NAME (def/class names, dotted names of nested defs, missing names) on whole views and '
         'bounded sub-views with start > 0, on body / _body / orelse / finalbody with and without docstring, by get / at / set / '
-        'del; then the randomised sweep: for every (kind, field) witness family (all list fields with a '
+        'del / at(name, True); (P3) read and auxiliary forms on every window of small fields: view[i], at(i), at(i, True) '
+        '(singleton views: bounds, is_one), view[a:b] bounds, len/start/stop/start_and_stop, MatchMapping has_rest, copy() and '
+        'cut() of windows and of singleton views (returned elements, tree and view bounds afterwards), replace/remove through '
+        'singleton views; (P4) fixed interleaved call-argument shapes x real fields x every empty/one-element range x entry '
+        'points; no-op requests (deleting an empty range) and FST.replace(code, one=False) on an element are entry points too; '
+        'then the randomised sweep: for every (kind, field) witness family (all list fields with a '
         'slice handler, all virtual fields, AST-valued optional fields) and for corpus programs: random (start, stop) in '
         'raw forms (negative, out of range, "end"), 0-2 new elements, through every equivalent entry point on twin copies '
         'in several layouts; whole-tree ast.dump must equal CPython\'s parse of the source rendered from '
@@ -172,6 +177,11 @@ def _sweep(ctx, per_family, per_optional, n_progs, per_prog, full_product=False)
     for lst in pmap(c03_edits.run_name_case, c03_edits.name_items(full_product)):
         n0 += len(lst)
         _report(ctx, lst)
+    # read / auxiliary forms of the view API on every window: view[i], at(i), at(i, True), sub-slices, bounds, has_rest,
+    # copy / cut of windows and singleton views, edits through singleton views
+    for lst in pmap(c03_edits.run_view_query_case, c03_edits.view_query_items(full_product)):
+        n0 += len(lst)
+        _report(ctx, lst)
     res = pmap(c03_edits.run_family_case, [(i, ctx.rng.randrange(1 << 30), per_family) for i in range(nf)], chunksize=1)
     n = n0
     for lst in res:
@@ -193,6 +203,13 @@ def _sweep(ctx, per_family, per_optional, n_progs, per_prog, full_product=False)
         n += len(lst)
         _report(ctx, lst)
     # real fields args / keywords / bases of calls with interleaved positional and keyword arguments
+    res0 = pmap(c03_edits.run_arglike_product_case, [(k, i) for k in ('Call', 'ClassDef') for i in range(len(c03_edits._ARGLIKE_SHAPES))])
+    refused0 = 0
+    for lst in res0:
+        n += len(lst)
+        refused0 += sum(1 for r in lst if r.get('refused'))
+        _report(ctx, lst)
+    ctx.notes['interleaved_arglike_product_refused_for_ordering'] = refused0
     res = pmap(c03_edits.run_arglike_field_case, [(k, ctx.rng.randrange(1 << 30), max(10, per_family // 3))
                                                   for k in ('Call', 'ClassDef') for _ in range(8)])
     refused = 0
@@ -236,6 +253,11 @@ def replay(ctx, data):
     if w.get('name_args'):
         ci, field, doc, shape = w['name_args']
         for r in c03_edits.run_name_case((ci, field, doc, shape)):
+            if 'fail' in r and (r['a'], r['b'], r['new'], r['op']) == (w['a'], w['b'], w['new'], w['op']):
+                ctx.fail(f'C03|{r["sigop"]}|{r["fam"]}|{r["fail"]}', f'{r["op"]} on {r["fam"]}: {r["fail"]} {r.get("detail", "")}', r)
+        return
+    if w.get('query_args'):
+        for r in c03_edits.run_view_query_case(tuple(w['query_args'])):
             if 'fail' in r and (r['a'], r['b'], r['new'], r['op']) == (w['a'], w['b'], w['new'], w['op']):
                 ctx.fail(f'C03|{r["sigop"]}|{r["fam"]}|{r["fail"]}', f'{r["op"]} on {r["fam"]}: {r["fail"]} {r.get("detail", "")}', r)
         return
